@@ -244,12 +244,20 @@ def check(chk, repo, tier):
                 a.elts[1], ast.Constant) and a.elts[1].value == 0
             why = "scope is not [<arguments>, 0]"
             if ok:
-                src = norm(ast.unparse(a.elts[0]))
-                want = {"Lambda": "list(deep_copy(stack))[::-1]",
-                        "FunctionDef": "parameters[::-1]"}[label]
-                ok = src == want
-                why = (f"scope holds `{ast.unparse(a.elts[0])}`; the call's "
-                       f"arguments must be a reversed copy (`{want}`) so that "
+                e = a.elts[0]
+                rev = (isinstance(e, ast.Subscript) and isinstance(
+                    e.slice, ast.Slice) and e.slice.step is not None
+                    and norm(ast.unparse(e.slice.step)) == "-1"
+                    and e.slice.lower is None and e.slice.upper is None) \
+                    or (isinstance(e, ast.Call) and any(
+                        isinstance(c, ast.Call) and dotted(c.func) ==
+                        "reversed" for c in ast.walk(e)))
+                base = {"Lambda": "stack", "FunctionDef": "parameters"}[label]
+                from_args = any(isinstance(m, ast.Name) and m.id == base
+                                for m in ast.walk(e))
+                ok = rev and from_args
+                why = (f"scope holds `{ast.unparse(e)}`; it must be a reversed "
+                       f"copy of the call's arguments (`{base}`) so that "
                        "implicit reads cycle over them in order")
         chk.ob("C11.scope-push", f"{label} template", ok, why, TF,
                sample={"structure": label})
